@@ -82,6 +82,13 @@ def diff_check(ctx, ll, wrapper, defines, entry, args, n, ndebug, hooks=None, ho
         done += 1
         exp = 'end' if why == 'assume false' else 'ok' if why == 'ok' else 'violation'
         if st == 'unsupported': return None, 'interpreter: ' + info.get('msg', '')
+        if (st != exp or it.nobs != nobs or it.obs_hash != h) and exp == 'violation' and st == 'ok':
+            # the native run failed but the interpreter did not: first make sure the native record itself is trustworthy - a run that corrupts its own heap
+            # can print a damaged choice list. Replay the printed choices in a fresh native process; if that does not fail, the record is dropped.
+            v2, _ = replay_native(ctx, exe, entry, list(args), choices, syms)
+            if v2 != 'fails':
+                unreliable = locals().get('unreliable', 0) + 1
+                continue
         if st != exp or it.nobs != nobs or it.obs_hash != h:
             bad.append(dict(choices=choices, native=(why, nobs, '%016x' % h), interp=(st, it.nobs, '%016x' % it.obs_hash, info.get('msg', '')[:120])))
     ctx.counters['diff_cases'] += done
